@@ -23,8 +23,12 @@
 # Leg c08.samepath: ONE watched-files notification naming the same path several times (file replaced by remove + create,
 # short-lived file, ...; seeded changes C08-6 / C18-6). The model takes the notification event by event; the spec's
 # conformant notifications name every file once, so the demanded observable is computed in this file (samepath_proj: every
-# view = the fresh start's view). Class `changed_unknown` (Deleted + Changed of a re-created file) deviates on the deployed
-# code: decided on implementation = model only, recorded by the exploratory leg c08.samepathraw.
+# view = the fresh start's view). Leg c08.samepathraw: the notifications of that kind with a `Deleted X, Changed X` pair for a
+# re-created file (class `changed_unknown`, found by this leg in round 6, repaired: fixes/C08-changed-unknown.diff - "changed"
+# said of a path that is not a project file is handled like "created"); deciding since the repair.
+# Since that repair a conformant notification may also say "changed" of a NEW file, and a buffer whose file was deleted may
+# be saved (Spec/FreshStart.v conf_action): the conformant generators report a creation as `M` now and then and save such
+# buffers.
 import vlib
 from vlib import Leg
 
@@ -116,8 +120,9 @@ class Ed:
 
 
 def gen_history(rng, n_events, p_outside=0.08, p_raw=0.0, calm=False, batches=False, ann=0.14, INSIDE=INSIDE, OUTSIDE=OUTSIDE,
-                p_with=0.2):
-    """p_with = share of the didOpen notifications that carry a text of their own (a restored unsaved buffer) instead of the
+                p_with=0.2, p_new_changed=0.25):
+    """p_new_changed = share of the new files a watched notification reports as Changed instead of Created.
+    p_with = share of the didOpen notifications that carry a text of their own (a restored unsaved buffer) instead of the
     file's text.
     ann = share of annotation statements (check 18). The model keeps the project-wide annotation type table inside the
     cross-file analysis `cross`, i.e. over the files of the PROJECT, recomputed when the third pass is; the real server
@@ -176,8 +181,10 @@ def gen_history(rng, n_events, p_outside=0.08, p_raw=0.0, calm=False, batches=Fa
             evs.append("c%s=%s" % (g, c))
         elif r < 0.64 and opened:
             g = rng.choice(sorted(ed.dirty) or opened) if rng.random() < 0.8 else rng.choice(opened)
-            if g not in ed.disk and (ann > 0 or rng.random() < 0.9):
-                continue                      # saving a deleted file: the watcher would also report a creation
+            if g not in ed.disk and (ann > 0 or rng.random() < 0.5):
+                # saving a buffer whose file was deleted re-creates the file; conformant since the changed-unknown repair (the
+                # didSave's Changed event is handled like Created). Not with annotation statements (see the docstring)
+                continue
             ed.disk[g] = ed.buf[g]; ed.dirty.discard(g)
             evs.append("s" + g)
         elif r < 0.74 and opened:
@@ -204,7 +211,8 @@ def gen_history(rng, n_events, p_outside=0.08, p_raw=0.0, calm=False, batches=Fa
                     c = rand_content(rng, ann=ann)
                     if calm and c == "e":
                         c = "c"
-                    items.append("C%s=%s" % (g, c)); ed.disk[g] = c
+                    # a new file; some watchers report it as "changed": handled like "created" (changed-unknown repair)
+                    items.append("%s%s=%s" % ("M" if rng.random() < p_new_changed else "C", g, c)); ed.disk[g] = c
             if items:
                 evs.append("w" + "+".join(items))
     init = ",".join("%s=%s" % (f, c) for f, c in sorted(disk.items())) or "-"
@@ -493,7 +501,7 @@ def gen_samepath(rng, tier, only_changed=False):
     conformant notification name every file once: these histories are outside the domain of C08_full_proved; the leg
     compares implementation and model as usual and, as the demanded observable, every step's view with the view of a fresh
     start on the files as they are then (`samepath_proj`).
-    only_changed: only histories with a `D M` pair (class `changed_unknown`), for the exploratory leg c08.samepathraw."""
+    only_changed: only histories with a `D M` pair (class `changed_unknown`, repaired), for the leg c08.samepathraw."""
     n = {"quick": 420, "thorough": 7000, "search": 300}[tier]
     if only_changed:
         n = n // 7
@@ -552,13 +560,14 @@ def gen_samepath(rng, tier, only_changed=False):
 
 
 def changed_unknown(case):
-    """class predicate (exact, on the case text): some watched notification says Changed of a path that is not a file of the
-    project when the server comes to that event - here: deleted by an earlier event of the same notification and re-created
-    on disk. HandleFileEventChanges gives such a file a first pass but does not enter it into allFilesMap / the file-name
-    index (only Created does), so it takes no part in the third pass and no require finds it: the view differs from a
-    fresh start's. The same happens for a single Changed event naming a file the server was never told about (raw
-    histories `k<f>=..;WM<f>`); a watcher that reports Deleted + Changed for a replaced file is what makes it reachable
-    without an event being lost."""
+    """class predicate (exact, on the case text) of the REPAIRED finding changed_unknown: some watched notification says
+    Changed of a path that is not a file of the project when the server comes to that event - here: deleted by an earlier
+    event of the same notification and re-created on disk. Before fixes/C08-changed-unknown.diff HandleFileEventChanges
+    gave such a file a first pass but did not enter it into allFilesMap / the file-name index (only Created did), so it took
+    no part in the third pass and no require found it: the view differed from a fresh start's. The same happened for a
+    single Changed event naming a file the server was never told about (a new file reported as changed; raw histories
+    `k<f>=..;WM<f>`). Now such an event is handled like Created; the predicate only selects the cases of leg
+    c08.samepathraw."""
     mode, init, evs = case.split(" ")[:3]
     disk = set(it[0] for it in init.split(",")) if init != "-" else set()
     for e in evs.split(";") if evs != "-" else []:
@@ -587,6 +596,162 @@ def samepath_proj(obs):
             if canon(v) != canon(f):
                 return "step %d: view %s, fresh start %s" % (k, v, f)
     return "="
+
+
+
+# ---- leg c08.query: the queries clause ("the answers to queries are the same as those of a freshly started server") ----
+# A case is `Q:<0|1> <srv.script case: files, history steps, query steps> ## <srv.script case: the FINAL files, the same
+# query steps>` (format of the halves: harness/srv_script.go). The Go leg runs both halves, each on a fresh real server, and
+# answers `<answers after the history> ~ <answers of the fresh server>`; query_canon turns that into "=" when the halves
+# agree. There is no Coq model of query answers: a case carries, as its first item, the class predicate of the OPEN
+# finding stale_foreign_member (`stale_members` below; known_findings/C08.json); inside the class (Q:1) the answers may
+# deviate and are not compared (observable "class" on both sides), outside it (Q:0) the leg demands the answers of the fresh
+# server (model column "=", echoed by ocaml/c08_run.ml): every deviation outside the class is a VIOLATION. The histories are built
+# around that finding: a global table defined in one file, members added to it by OTHER files, which are then rewritten,
+# deleted, created, saved; the queries are definition / hover on the member uses and completion behind `M.` in a third
+# file that is never touched. (A repair, fixes/C08-stale-foreign-member.diff, was tried and WITHDRAWN: see the finding.)
+def hx(b):
+    if isinstance(b, str):
+        b = b.encode("utf8")
+    return b.hex() if b else "-"
+
+
+Q_TABLE = ["M = {}\n", "M = { h = 1 }\n", "M = {}\nM.own = 2\n"]
+Q_MEMBER = ["function M.f() end\n", "function M.g() end\n", "M.x = 1\n", "M.f = function(a, b) end\nM.x = 'text'\n",
+            "function M.f(p) return p end\nfunction M.g() end\n", "print(1)\n", "function M:f() end\n"]
+Q_USER = "M.f()\nlocal v = M.x\nlocal w = M.g\nlocal z = M.f\n"
+Q_QUERIES = ["S:open:0", "S:define:0:0:2", "S:hover:0:0:2", "S:define:0:1:12", "S:define:0:2:12", "S:hover:0:2:12",
+             "S:complete:0:3:12", "S:diags"]
+
+
+def query_case(init, steps, final):
+    """init / final: dict name -> text (c.lua first: the queries name file 0), steps: S: items of the history"""
+    order = lambda d: ["c.lua"] + sorted(k for k in d if k != "c.lua")
+    fitems = lambda d: ["F:%s:%s" % (hx(k), hx(d[k])) for k in order(d)]
+    return " ".join(fitems(init) + steps + Q_QUERIES) + " ## " + " ".join(fitems(final) + Q_QUERIES)
+
+
+def stale_members(script):
+    """The class predicate of the OPEN finding stale_foreign_member, on the history: True when
+    a file that adds (or may add) members to ANOTHER file's global table - here b.lua / d.lua, the table M is a.lua's - was
+    changed (and analysed), deleted or created by an event, and the table's file exists at the end. (A later analysis of the
+    table's file heals the simple witnesses - corpus case 4 - but NOT always: `a=T2,b=print(1),d=function M:f() end`, Changed
+    a.lua (same text), Deleted d.lua, Changed a.lua to `M = {}`: definition of f still answers the deleted d.lua; so the
+    class does not except such histories.)
+    Inside the class the answers may deviate from a fresh start's (generateAllGlobalMaps inserts such members IN PLACE into
+    the first-phase VarInfo of the file defining M, a member only when the table has none of that name yet, and nothing
+    removes them until that file is analysed again) - whether they do depends on which pass inserted which member first;
+    outside the class the leg demands the answers of the fresh start. A file analysed by an event keeps its contents: a
+    later Changed event with the same contents is skipped (no analysis). Returns (in class, init disk, final disk, steps)."""
+    disk = {"c.lua": Q_USER}
+    init = None
+    steps = []
+    dirty = False       # a member file was analysed / deleted / created by an event
+    kept = set()        # files whose contents the server keeps (analysed by an event)
+
+    def changed(f, t):
+        nonlocal dirty
+        same = f in kept and disk.get(f) == t
+        disk[f] = t
+        if same:
+            return
+        kept.add(f)
+        if f != "a.lua":
+            dirty = True
+
+    for op, f, t in script:
+        if op == "init":
+            disk[f] = t
+            continue
+        if init is None:
+            init = dict(disk)
+        if op == "watch-change" and f in disk:
+            steps += ["S:fswrite:%s:%s" % (hx(f), hx(t)), "S:watch:2:%s" % hx(f)]
+            changed(f, t)
+        elif op == "watch-create" and f not in disk:
+            steps += ["S:fswrite:%s:%s" % (hx(f), hx(t)), "S:watch:1:%s" % hx(f)]
+            kept.discard(f)
+            changed(f, t)
+        elif op == "watch-delete" and f in disk:
+            del disk[f]
+            kept.discard(f)
+            steps += ["S:fsrm:%s" % hx(f), "S:watch:3:%s" % hx(f)]
+            dirty = f != "a.lua"
+        elif op == "edit-save" and f in disk:
+            steps += ["S:popen:%s:%s" % (hx(f), hx(disk[f])), "S:pchange:%s:%s" % (hx(f), hx(t)),
+                      "S:fswrite:%s:%s" % (hx(f), hx(t)), "S:psave:%s" % hx(f), "S:pclose:%s" % hx(f)]
+            changed(f, t)
+        elif op == "touch" and f in disk:
+            steps += ["S:watch:2:%s" % hx(f)]
+            changed(f, disk[f])
+    if init is None:
+        init = dict(disk)
+    return dirty and "a.lua" in disk, init, disk, steps
+
+
+def gen_query(rng, tier):
+    n = {"quick": 160, "thorough": 2500, "search": 120}[tier]
+    out = []
+
+    def one(script):
+        """script: list of (op, file, text) performed as an editor / watcher would: the disk first, then the notification.
+        The case starts with the item Q:1 / Q:0 = the class predicate stale_members (srv.script ignores the item; the Go leg
+        and the model side of the leg, ocaml/c08_run.ml, echo it)"""
+        dev, init, final, steps = stale_members(script)
+        return "Q:%d " % (1 if dev else 0) + query_case(init, steps, final)
+
+    # the witnesses of the finding and its variants (kept first)
+    out.append(one([("init", "a.lua", Q_TABLE[0]), ("init", "b.lua", Q_MEMBER[0]), ("watch-change", "b.lua", Q_MEMBER[1])]))
+    out.append(one([("init", "a.lua", Q_TABLE[0]), ("init", "b.lua", Q_MEMBER[0]), ("edit-save", "b.lua", Q_MEMBER[1])]))
+    out.append(one([("init", "a.lua", Q_TABLE[0]), ("init", "b.lua", Q_MEMBER[0]), ("watch-delete", "b.lua", "")]))
+    out.append(one([("init", "a.lua", Q_TABLE[0]), ("init", "b.lua", Q_MEMBER[0]), ("watch-change", "b.lua", Q_MEMBER[1]),
+                    ("touch", "a.lua", "")]))
+    out.append(one([("init", "a.lua", Q_TABLE[1]), ("init", "b.lua", Q_MEMBER[3]), ("init", "d.lua", Q_MEMBER[0]),
+                    ("watch-delete", "b.lua", "")]))
+    out.append(one([("init", "a.lua", Q_TABLE[0]), ("init", "d.lua", Q_MEMBER[0]), ("watch-create", "b.lua", Q_MEMBER[4])]))
+    for k in range(n):
+        script = [("init", "a.lua", rng.choice(Q_TABLE))] if rng.random() < 0.9 else []
+        for f in ["b.lua", "d.lua"]:
+            if rng.random() < (0.85 if f == "b.lua" else 0.4):
+                script.append(("init", f, rng.choice(Q_MEMBER)))
+        only_table = rng.random() < 0.35          # histories outside the class: events for the table's file only
+        for _ in range(rng.choice([1, 1, 2, 3, 4])):
+            f = "a.lua" if only_table else rng.choice(["b.lua", "b.lua", "d.lua", "a.lua"])
+            texts = Q_TABLE if f == "a.lua" else Q_MEMBER
+            op = rng.choice(["watch-change", "watch-change", "edit-save", "watch-delete", "watch-create", "watch-create", "touch"])
+            script.append((op, f, rng.choice(texts)))
+        if rng.random() < 0.3:
+            # the file defining the table is analysed again, last (heals the simple cases; still inside the class)
+            script.append((rng.choice(["watch-change", "edit-save", "touch", "watch-create"]), "a.lua", rng.choice(Q_TABLE)))
+        out.append(one(script))
+    return out
+
+
+def query_canon(obs):
+    """the observable of leg c08.query: for a case outside the class (Q:0) "=" when the answers after the history are those
+    of the fresh server, else "stale"; for a case inside the class (Q:1) the word "class": there the answers may deviate
+    (open finding) and are not compared"""
+    if " ~ " not in obs or not obs.startswith("Q:"):
+        return obs[:200]
+    q, rest = obs.split(" ", 1)
+    if q == "Q:1":
+        return "class"
+    a, b = rest.split(" ~ ", 1)
+    return "=" if a == b else "stale: " + query_proj(rest)
+
+
+def query_proj(obs):
+    """ "=" when the answers after the history are those of the fresh server"""
+    if " ~ " not in obs:
+        return obs[:200]
+    a, b = obs.split(" ~ ", 1)
+    if a == b:
+        return "="
+    qa, qb = a.split(" | "), b.split(" | ")
+    for x, y in zip(qa, qb):
+        if x != y:
+            return "after the history %s, fresh server %s" % (x[:160], y[:160])
+    return "answers differ in number"
 
 
 def gen_raw(rng, tier):
@@ -673,12 +838,15 @@ LEGS = [
     Leg("c08.annraw", gen_annraw, nontrivial=nontrivial, per_case_s=5.0, deciding=False),
     # one notification naming the same path several times: outside the conformant histories of the theorem (a conformant
     # notification names every file once), so the demanded observable is computed here: every view = the fresh start's
-    # (for the class `changed_unknown` - a Changed event for a path the server has just been told is deleted - only
-    # implementation = model is decided; the exploratory leg c08.samepathraw records how those views differ from a fresh start)
+    # (c08.samepathraw: only the notifications with a Changed event for a path the server has just been told is deleted -
+    # the repaired class `changed_unknown`; exploratory until the repair, deciding now)
     Leg("c08.samepath", gen_samepath, shrink=shrink, per_case_s=5.0, spec_proj=samepath_proj,
-        py_spec=lambda c: "-" if changed_unknown(c) else "=", nontrivial=lambda c: True),
-    Leg("c08.samepathraw", lambda rng, tier: gen_samepath(rng, tier, only_changed=True), per_case_s=5.0, py_spec=lambda c: "=",
-        spec_proj=samepath_proj, nontrivial=lambda c: True, deciding=False),
+        py_spec=lambda c: "=", nontrivial=lambda c: True),
+    Leg("c08.samepathraw", lambda rng, tier: gen_samepath(rng, tier, only_changed=True), shrink=shrink, per_case_s=5.0,
+        py_spec=lambda c: "=", spec_proj=samepath_proj, nontrivial=lambda c: True),
+    # the queries clause: answers after a history = answers of a fresh server on the final files (implementation against its
+    # own fresh start; the model column is the constant "=": see gen_query)
+    Leg("c08.query", gen_query, per_case_s=8.0, canon_impl=query_canon, py_spec=lambda c: "=", nontrivial=lambda c: True),
 ]
 
 TRUSTED = vlib.TRUSTED_COMMON + [
@@ -692,8 +860,13 @@ TRUSTED = vlib.TRUSTED_COMMON + [
     "rendered by ocaml/c08_run.ml against what the real server published",
     "leg c08.samepath (one watched notification naming a path several times): outside the conformant histories of C08_full_proved "
     "(Spec/FreshStart.v conf_action: every file once); implementation = model is decided as everywhere, and view = fresh-start view is "
-    "evaluated by checks/c08.py on the implementation's own answer (no theorem); a Changed event for a path the server does not know "
-    "(class changed_unknown, e.g. Deleted + Changed of a re-created file) leaves the file out of the project: recorded, exploratory leg c08.samepathraw",
+    "evaluated by checks/c08.py on the implementation's own answer (no theorem); leg c08.samepathraw: the same for notifications with a "
+    "Changed event for a path the server has just been told is deleted (repaired class changed_unknown: handled like Created)",
+    "leg c08.query (queries clause): definition / hover / completion answers after a history of watched events and saves over files "
+    "that add members to ANOTHER file's global table, compared with the answers of a fresh server on the final files - a differential "
+    "test of the real server against its own fresh start (no Coq model of query answers); histories inside the class of the OPEN "
+    "finding stale_foreign_member (predicate stale_members of checks/c08.py, carried in the case) are not compared, outside it the "
+    "answers must be the fresh server's",
     "modelled, tied by correspondence: diagnostics_manager.go, the five handlers of textdocument_file_request.go (didOpen "
     "compares the carried text with the file - the model's disk - and analyses it when they differ: legs c08.opentext, c08.raw), "
     "HandleFileEventChanges, the unchanged-content shortcut, RemoveFile / FileIndexInfo.RemoveOneFile, ReanalyseReferInfo trigger, "
